@@ -455,7 +455,7 @@ func dmDims() []dmDim {
 	}
 	d = append(d, dmDim{0, 0}, dmDim{9, 9}, dmDim{17, 9}, dmDim{145, 145}, dmDim{1000, 7}, dmDim{7, 1000})
 	// bounds far beyond the largest symbol: 8-, 16- and 32-bit marks (a bound is an int, not a symbol size)
-	d = append(d, dmDim{255, 255}, dmDim{256, 256}, dmDim{300, 300}, dmDim{144, 399}, dmDim{512, 144}, dmDim{65535, 65535}, dmDim{65536, 65536}, dmDim{65580, 65580}, dmDim{1<<31 - 1, 1<<31 - 1})
+	d = append(d, dmDim{255, 255}, dmDim{256, 256}, dmDim{300, 300}, dmDim{144, 399}, dmDim{512, 144}, dmDim{65535, 65535}, dmDim{65536, 65536}, dmDim{65580, 65580}, dmDim{1<<31 - 1, 1<<31 - 1}, dmDim{1 << 31, 1 << 31}, dmDim{1<<63 - 1, 1<<63 - 1}, dmDim{1<<63 - 1, 20}, dmDim{1<<63 - 2, 1<<63 - 2})
 	// bounds whose Dimension.HashCode (width*32713 + height) or Java-style 31*width + height equals
 	// that of a listed size although they admit different symbols
 	d = append(d, dmDim{11, 12 + 32713}, dmDim{31, 32 + 32713}, dmDim{17, 8 + 32713}, dmDim{11, 12 + 31}, dmDim{31, 32 + 31}, dmDim{143, 144 + 32713})
@@ -548,7 +548,7 @@ func dmLookups() {
 			jobs = append(jobs, job{s, i})
 		}
 	}
-	chk.Range(fmt.Sprintf("DM SymbolInfo_Lookup: codewords 0..1560 x 3 shapes x %d x %d (min,max) pairs over {nil, 30 symbol sizes, 21 off-list sizes incl. 255/256/300/65535/65536/2^31-1 and sizes whose hash code collides with a listed size} x fail {true,false} [%d lookups]",
+	chk.Range(fmt.Sprintf("DM SymbolInfo_Lookup: codewords 0..1560 x 3 shapes x %d x %d (min,max) pairs over {nil, 30 symbol sizes, 25 off-list sizes incl. 255/256/300/65535/65536/2^31-1/2^31/MaxInt and sizes whose hash code collides with a listed size} x fail {true,false} [%d lookups]",
 		len(dims), len(dims), 1561*3*len(dims)*len(dims)*2), len(jobs),
 		func(i int) string { return fmt.Sprint(jobs[i]) },
 		func(l *mc.Local, i int) {
